@@ -1,6 +1,7 @@
 package main
 
 import (
+	"regexp"
 	"encoding/json"
 	"fmt"
 	"golang.org/x/tools/go/ssa"
@@ -453,7 +454,7 @@ func cmdCheck(args []string) int {
 	retried := 0
 	for _, fr := range res {
 		for _, o := range fr.Obls {
-			if o.Result == "unknown" && o.QueryFile != "" {
+			if o.Result == "unknown" && o.QueryFile != "" && retried < 4 {
 				o.Result = ""
 				ro := opt
 				ro.secs = opt.secs * 4
@@ -532,7 +533,7 @@ func cmdCheck(args []string) int {
 		// known finding?
 		var kf *KnownFinding
 		for _, k := range known {
-			if !k.Fixed && k.Property == prop && k.Obligation == full {
+			if !k.Fixed && k.Property == prop && normObl(k.Obligation) == normObl(full) {
 				kf = k
 			}
 		}
@@ -811,3 +812,9 @@ func staticObligations(P *Program, C *Contracts) []*Obligation {
 	}
 	return out
 }
+
+var pathSuffixRe = regexp.MustCompile(`\.(p|e)[0-9]+`)
+
+// normObl drops the path/edge numbering of an obligation name: a finding is identified by
+// function, clause and return, not by the enumeration order of the paths that reach it.
+func normObl(name string) string { return pathSuffixRe.ReplaceAllString(name, "") }
